@@ -68,3 +68,17 @@ CLAIMS["C07"] = dict(
     note="As C06.",
     design_ref="DESIGN.md §6 C07",
 )
+
+CLAIMS["C11"] = dict(
+    text="Condvar.tla (literal model of wait_impl / notify_one / notify_all with the standard predicate client, the "
+         "forwarding of a notification by a waiter that times out or is cancelled, re-lock before return) is checked "
+         "exhaustively by TLC for 2 waiters + notifier with a timed bystander, a cancelled waiter and notify_all: no lost "
+         "notification (state-based witness + deadlock-freedom), mutex re-acquired before wait returns. TLC behaviours are "
+         "replayed into the real Condvar (coroutine + thread actors, virtual-clock timeouts, real cancel); Barrier and the "
+         "predicate client are additionally explored with seeded and preemption-bounded schedules; oracle: occupancy of the "
+         "mutex at every return of wait, served/notified arithmetic, one leader per Barrier generation, release only after n "
+         "arrivals, hang.",
+    note="The user mutex is abstract in the replayed spec (C05 decides it); WaitGroup is covered through the same Condvar "
+         "paths only; SC memory; exhaustive only within the model's bounds.",
+    design_ref="DESIGN.md §6 C11",
+)
